@@ -2,7 +2,7 @@ import re
 from vdriver import Job
 
 LEVEL = "other"
-TECHNIQUE = "bounded contract check (CBMC) of the real print_to_with scanner against an independent tokenizer, one format string per obligation set over the property's grammar, sinks and libc formatting cut by recording contracts"
+TECHNIQUE = "bounded contract check (CBMC) of the real print_to_with scanner against an independent tokenizer, one format string per obligation set over the property's grammar, sinks and libc formatting cut by contracts that tokenise whatever text they are handed (any grouping of literal text and specifications into sink calls is accepted)"
 LEVEL_TEXT = ("What Cello adds to C formatting is the scanner and the sinks, and that is what is under contract: for each of an enumerated set of well-formed formats (literal runs, %%, "
               "specifications with flags / width / precision / length modifier and every conversion d i u o x X c s f F e E g G a A p and %$, at the very start, the very end and adjacent), "
               "with symbolic argument values and start position, the pieces handed to the sink are exactly the tokens an independent tokenizer produces, verbatim and NUL-terminated, each paired "
@@ -54,7 +54,9 @@ def header(fmt, given=None):
 
 FORMATS = ["", "plain text", "%%", "100%% sure", "%d", "%i items", "x=%5d;", "%-08.3lld|", "%+.2f", "%10.4e%%", "%s", "[%-10s]", "%c%c", "%d%d", "%d %s %f", "a%$b", "%$", "%$%$",
            "%p", "%x%X%o%u", "%lu-%hhd", "%G%a%A%F%E%g", "end%d", "%s%%%c", "%#x %05i", "%li", "%f",
-           "% ld", "x=% 6ld;", "%- 6ld|", "% f", "% .2e", "%+05d", "%#o%#X", "%-+ #012.5lld", "%hd%hu", "%zu %jd %td", "%Lf", "%.0f%5.1g", "%-5c|", "%.3s"]
+           "% ld", "x=% 6ld;", "%- 6ld|", "% f", "% .2e", "%+05d", "%#o%#X", "%-+ #012.5lld", "%hd%hu", "%zu %jd %td", "%Lf", "%.0f%5.1g", "%-5c|", "%.3s",
+           # literal text made of the letters that mean something inside a specification, right before and after specifications
+           "%.2f Litres", "%g L%d", "Ll%dhL", "%sL l", "%eL%LfL", "hd%ldh", "z%c$"]
 
 def jobs(tier, prefix="C14"):
     from props import seqcases
